@@ -80,9 +80,12 @@ def const_cases():
 # (both sides are the real implementation; what the literal form means is the business of C08)
 CU_TEMPLATES = (('{a}', '3s', {'a': 1}), ('{a}', '3', {'a': 1}), ('{a} s', '3s', {'a': 1}), ('0', '{a}', {'a': 2}), ('1s', '{a}', {'a': 3}),
                 ('{a}', '2000ms', {'a': 1000}), ('{a} ms', '3s', {'a': 1000}), ('1', '{a} s', {'a': 3}), ('{a}', '{b}', {'a': 1, 'b': 2}),
-                ('{a}', '{b} s', {'a': 1, 'b': 2}), ('{a} ms', '{b}', {'a': 1000, 'b': 2000}), ('0', '{a} ms', {'a': 2000}))
+                ('{a}', '{b} s', {'a': 1, 'b': 2}), ('{a} ms', '{b}', {'a': 1000, 'b': 2000}), ('0', '{a} ms', {'a': 2000}),
+                # the values handed to declare_const() as Python NUMBERS (not strings), several of them not representable in binary
+                ('0', '{a}', {'a': 0.3}, 'num'), ('{a}', '{b}', {'a': 0.1, 'b': 0.3}, 'num'), ('0', '{a}', {'a': 1.5}, 'num'), ('{a}', '1', {'a': 0.5}, 'num'),
+                ('0', '{a}', {'a': 2}, 'num'), ('0', '{a} ms', {'a': 300}, 'num'), ('{a}', '{a}', {'a': 0.7}, 'num'), ('{a} s', '{b} ms', {'a': 0.2, 'b': 600.0}, 'num'))
 CU_OPS = (('once', 1), ('historically', 1), ('eventually', 1), ('always', 1), ('since', 2), ('until', 2))
-CU_CONFIGS = (('s', (1, 's'), 1.0), ('ms', (1000, 'ms'), 1000.0), ('ms', (500, 'ms'), 500.0), (None, None, 1.0))
+CU_CONFIGS = (('s', (1, 's'), 1.0), ('ms', (1000, 'ms'), 1000.0), ('ms', (500, 'ms'), 500.0), (None, None, 1.0), ('s', (100, 'ms'), 0.1), ('s', (500, 'ms'), 0.5))
 CU_KINDS = ('dt_off', 'dt_on', 'ct_off', 'ct_on')
 
 
@@ -96,13 +99,14 @@ def const_unit_cases():
 
 
 def cu_texts(op, ar, ti):
-    b, e, vals = CU_TEMPLATES[ti]
+    b, e, vals = CU_TEMPLATES[ti][:3]
+    numeric = len(CU_TEMPLATES[ti]) > 3
     names = {k: 'k' + k for k in vals}
     operands = '(x >= 0)' if ar == 1 else None
     def text(sub):
         I = '[%s:%s]' % (b.format(**sub), e.format(**sub))
         return 'out = %s%s %s' % (op, I, operands) if ar == 1 else 'out = (x >= 0) %s%s (y >= 0)' % (op, I)
-    consts = [(names[k], 'int', str(v)) for k, v in sorted(vals.items())]
+    consts = [(names[k], 'float' if isinstance(v, float) else 'int', v if numeric else str(v)) for k, v in sorted(vals.items())]
     return text(names), text({k: str(v) for k, v in vals.items()}), consts
 
 
